@@ -3,6 +3,7 @@
 # 1. confirms in a scratch worktree: existing tests pass with the patch; demo fails with it and passes without it
 # 2. applies the patch to /repo, runs the check, restores /repo
 set -u
+if [ -n "$(git -C /repo status --porcelain)" ]; then echo "try_seed: /repo working tree not clean (commit or stash first: the script restores with git checkout)"; exit 2; fi
 export GOFLAGS=-mod=mod GOPROXY=off GOSUMDB=off GOTOOLCHAIN=local
 P=$1; D=$(readlink -f $2)
 dir=$(head -3 $D/demo_test.go | grep -o 'dir: [^ ]*' | head -1 | cut -d' ' -f2)
